@@ -1107,7 +1107,8 @@ handle_null_request(int tun_fd, int dns_fd, struct dnsfd *dns_fds, struct query 
 			break;
 		case 'R':
 		case 'r':
-			if (q->type == T_NULL || q->type == T_TXT) {
+			if (q->type == T_NULL || q->type == T_PRIVATE ||
+			    q->type == T_TXT) {
 				write_dns(dns_fd, q, datap, datalen, 'R');
 				return;
 			}
